@@ -42,6 +42,7 @@ type Op struct {
 
 	Fail bool `json:"fail,omitempty"` // preCommit: the action returns an error
 
+	TxCtx  bool `json:"txCtx,omitempty"`  // (with Nested / commitAction) through a context made by NewTxMutateContext over the running transaction
 	Nested bool `json:"nested,omitempty"` // issued inside a nested Db.Update(ctx, ...) on the context already bound to the transaction
 }
 
@@ -411,7 +412,7 @@ func (m *Model) Apply(op Op, now int64) Outcome {
 		return m.applyLink(op)
 	case "incr", "decr", "setCount":
 		return m.applyRc(op)
-	case "preCommit", "commitAction", "listen":
+	case "preCommit", "commitAction", "listen", "initIndexes":
 		return Outcome{OK: true}
 	}
 	panic("model: unknown op kind " + op.K)
